@@ -82,6 +82,26 @@ M = [
     ("C13-ps-evolves-in-place", ["C13"], "renormalizer/mps/mps.py", None, None),
     ("C13-scale-not-inplace-aliases", ["C13"], "renormalizer/mps/mp.py", "        new_mp = self if inplace else self.copy()", "        new_mp = self"),
     ("C13-compressed-sum-in-place", ["C13"], "renormalizer/mps/lib.py", "new_mps = mps_list[0].copy().canonicalise()", "new_mps = mps_list[0].canonicalise()"),
+    # ---- later additions: tree parts, kernels, and variations on the seeded changes ---------------------------
+    ("C01-dedup-absolute-zero", ["C01"], "renormalizer/mps/symbolic_mpo.py",
+     "mask = np.abs(factor) > (np.max(np.abs(factor)) * 1e-15)", "mask = ~np.isclose(factor, 0)"),
+    ("C01-model-drops-identical-duplicates", ["C01"], "renormalizer/model/model.py", "        for term_op in terms:\n            for name in term_op.dofs:",
+     "        for term_op in dict.fromkeys(terms):\n            for name in term_op.dofs:"),
+    ("C13-tree-imag-time-in-place", ["C13"], "renormalizer/tn/tree.py", "            ttns = self.copy()\n", "            ttns = self\n"),
+    ("C06-tree-2site-labels", ["C06", "C08"], "renormalizer/tn/tree.py", "            node.qn = self.qntot - msqn", "            node.qn = msqn"),
+    ("C08-tree-2site-m-ignored", ["C05", "C12"], "renormalizer/tn/tree.py", "            m_trunc = min(m_trunc, len(s))\n", "            m_trunc = len(s)\n"),
+    ("C08-tree-hop2-parent-env", ["C08", "C12"], "renormalizer/tn/hop_expr.py",
+     "    args.append(eparent.environ_parent)\n    args.append(ttne.get_parent_indices(eparent, ttns, ttno))",
+     "    args.append(eparent.environ_parent * 1.01)\n    args.append(ttne.get_parent_indices(eparent, ttns, ttno))"),
+    ("C10-tree-aux-keeps-charge", ["C10", "C02"], "renormalizer/tn/treebase.py", "                    basis_q.sigmaqn = np.zeros_like(basis.sigmaqn)\n", "                    pass\n"),
+    ("C10-tree-imag-sign", ["C10", "C12"], "renormalizer/tn/tree.py", "            coeff = 1\n            tau = tau.imag", "            coeff = 1\n            tau = -tau.imag"),
+    ("C12-ps-backward-forward-order", ["C12"], "renormalizer/tn/time_evolution.py",
+     "    local_steps2 = _tdvp_ps_backward(ttns, ttno, ttne, coeff, tau / 2)", "    local_steps2 = _tdvp_ps_forward(ttns, ttno, ttne, coeff, tau / 2)"),
+    ("C11-tree-add-coeff", ["C11"], "renormalizer/tn/tree.py", "                tensor1, tensor2 = tensor1 * coeff1, tensor2 * coeff2", "                tensor1, tensor2 = tensor1 * coeff1, tensor2 * coeff1"),
+    ("C14-mps-load-qnidx", ["C14"], "renormalizer/mps/mps.py", "        mp.qnidx = int(npload[\"qnidx\"])", "        mp.qnidx = int(npload[\"qnidx\"]) if int(npload[\"qnidx\"]) < 9 else 0"),
+    ("C15-simplify-sums-abs", ["C15"], "renormalizer/model/op.py", None, None),
+    ("C18-svd-qn-block-order", ["C18", "C04"], "renormalizer/mps/svd_qn.py", None, None),
+    ("C20-cover-drops-isolated", ["C20"], "renormalizer/lib/bipartite_matching/bipartite_matching.py", None, None),
 ]
 
 
@@ -98,6 +118,8 @@ def prepare():
         if mid == "C13-ps-evolves-in-place":
             old = "            mps = self.to_complex()\n            if self.evolve_config.ivp_solver != \"krylov\":\n                coef = 1j\n\n        # the sweeps assume"
             new = "            mps = self.to_complex(inplace=True)\n            if self.evolve_config.ivp_solver != \"krylov\":\n                coef = 1j\n\n        # the sweeps assume"
+        if old is None:
+            continue        # placeholder without a pattern
         out.append((mid, props, f, old, new))
     return out
 
